@@ -52,6 +52,25 @@ def synthetic():
     return Crystal(uc, SpaceGroup(148, choice="H"), asym, titl="synthetic")
 
 
+def synthetic_split():
+    """the same kind of crystal with the asymmetric unit spread over two molecule images: the second hydrogen is listed at its
+    image under the second operation of the group (still the same crystal)"""
+    from chmpy.crystal import AsymmetricUnit, Crystal
+    c = synthetic()
+    op = c.space_group.symmetry_operations[1]
+    pos = np.array(c.asymmetric_unit.positions, dtype=float).copy()
+    pos[0] = op.apply(pos[0:1])[0]      # the FIRST listed atom sits in the minority image
+    asym = AsymmetricUnit(list(c.asymmetric_unit.elements), pos, labels=np.array(c.asymmetric_unit.labels).copy())
+    return Crystal(c.unit_cell, c.space_group, asym, titl="synthetic-split")
+
+
+def ordered(c, q):
+    """order-SENSITIVE form of a list-valued answer (users index these lists)"""
+    mols = getattr(c, q)()
+    frac = [c.to_fractional(m.center_of_mass.reshape(1, 3))[0] for m in mols]
+    return [(tuple(int(z) for z in m.atomic_numbers), tuple(float(x) for x in wrap01(f, 4))) for m, f in zip(mols, frac)]
+
+
 def load(name):
     from chmpy.crystal import Crystal
     return Crystal.load(str(core.SRC / "tests" / "test_files" / name))
@@ -138,6 +157,7 @@ def run_history(make, hist, slots):
     world = [make()]
     vers = [0]
     nextv = [1]
+    seen_order = [{}]        # per crystal: the ordered answers given since its last mutation
     lines, outs, fails = ["init 1"], ["ok"], []
     changed = False
     nontrivial = False
@@ -154,6 +174,12 @@ def run_history(make, hist, slots):
                 again = canon(c, arg)
                 if not approx_eq(got, again):
                     fails.append(f"step {k}: repeating {arg} returned a different result")
+                if arg in ("unit_cell_molecules", "symmetry_unique_molecules"):
+                    now = ordered(c, arg)
+                    if arg in seen_order[tgt] and not approx_eq(seen_order[tgt][arg], now):
+                        fails.append(f"step {k}: {arg} returned its molecules in a different ORDER than the same query earlier in this history "
+                                     f"(no change to the crystal in between): another query modified the memoised list")
+                    seen_order[tgt][arg] = now
             except Exception as ex:  # noqa
                 ok, got, want = False, f"raised {type(ex).__name__}: {ex}", "an answer"
             if base_key(c) != before:
@@ -167,6 +193,7 @@ def run_history(make, hist, slots):
         elif kind == "sw":
             if c.space_group.has_hexagonal_rhombohedral_choices() and c.space_group.choice != arg:
                 c.choose_trigonal_lattice(arg)
+                seen_order[tgt] = {}
                 lines.append(f"mutate {tgt} choose_trigonal_lattice {nextv[0]}")
                 nextv[0] += 1
                 changed = True
@@ -179,6 +206,7 @@ def run_history(make, hist, slots):
             outs.append(occ(c))
         else:
             world.append(copy.deepcopy(c))
+            seen_order.append(copy.deepcopy(seen_order[tgt]))
             lines.append(f"copy {tgt}")
             outs.append(f"{len(world) - 1} {occ(world[-1])}")
             changed = True
@@ -198,6 +226,8 @@ def histories(ctx, maxlen, nrandom, qs):
 def _all(ctx, budget):
     slots = gen_cc.scan()["slots"]
     plans = [(synthetic, "synthetic R-3", histories(ctx, 3 if budget == "quick" else 4, 150 if budget == "quick" else 1500, QUERIES[:6]))]
+    mq = ["unit_cell_molecules", "symmetry_unique_molecules", "unit_cell_atoms"]
+    plans.append((synthetic_split, "synthetic R-3, asymmetric unit split over two molecules", histories(ctx, 3, 40 if budget == "quick" else 400, mq)))
     if budget != "quick":
         plans.append((lambda: load("r3c_example.cif"), "r3c_example.cif", histories(ctx, 2, 40, ["unit_cell_atoms", "density", "to_cif_string", "atoms_in_radius"])))
         plans.append((lambda: load("acetic_acid.cif"), "acetic_acid.cif", histories(ctx, 2, 60, QUERIES)))
